@@ -28,10 +28,26 @@ def main():
     rec = {'seed': '%s-%s' % (pid, k), 'property': pid, 'what_breaks': meta.get('what_breaks'), 'needs_to_manifest': meta.get('needs_to_manifest'), 'ran': []}
     cmd = meta.get('build_and_run')
     if isinstance(cmd, list):
-        cmd = ' && '.join(cmd)
+        cmd = '\n'.join(cmd)
+    import re
+    lines = []
+    for ln in cmd.split('\n'):
+        ln = re.sub(r'\s+#.*$', '', ln)               # trailing comments
+        ln = re.sub(r'git( -C \S+)? apply[^&;\n]*(&&|;)?', '', ln)   # the driver applies / reverts the patch itself
+        ln = re.sub(r'git( -C \S+)? checkout[^&;\n]*(&&|;)?', '', ln)
+        if ln.strip():
+            lines.append(ln)
+    cmd = '\n'.join(lines)
+    rec['demo_cmd'] = cmd
+
+    def demo_rc(rc, o):
+        m = re.findall(r'exit=(\d+)', o)
+        return int(m[-1]) if m else rc
     if not skip_confirm:
         sh('git checkout -- src include', cwd=wt)
+        sh('cmake -G Ninja -B _build >/dev/null && cmake --build _build', cwd=wt, timeout=900)
         rc0, o0 = sh(cmd, cwd=wt, timeout=600)
+        rc0 = demo_rc(rc0, o0)
         rec['demo_clean_rc'] = rc0
         rc, o = sh('git apply %s' % patch, cwd=wt)
         if rc != 0:
@@ -41,9 +57,11 @@ def main():
         rec['tests_with_patch'] = '100% tests passed' in ob
         rec['tests_tail'] = ob[-300:]
         rc1, o1 = sh(cmd, cwd=wt, timeout=600)
+        rc1 = demo_rc(rc1, o1)
         rec['demo_patched_rc'] = rc1
         rec['demo_patched_tail'] = o1[-400:]
         sh('git checkout -- src include', cwd=wt)
+        sh('cmake --build _build', cwd=wt, timeout=900)  # lib/ back to the clean build
         sh('rm -rf _build', cwd=wt)
         rec['confirmed'] = (rc0 == 0 and rc1 != 0 and rec['tests_with_patch'])
         rec['ran'].append('scratch worktree %s: demo on clean sources rc=%s; git apply; cmake build + ctest (10 tests) ; demo rc=%s' % (wt, rc0, rc1))
